@@ -155,8 +155,24 @@ def chains(t, out):
         chains(x, out)
 
 
+def extra_props(prog):
+    """functions on which the set's neighbour steps depend also serve C09"""
+    out = set()
+    for f in prog.fns.values():
+        if f.trait_method() in ('index_after', 'index_before') and f.self_adt in prog.tree_adts:
+            for g in prog.closure(f):
+                if g.path not in prog.accessors:
+                    out.add(g.path)
+    return out
+
+
+def props_of(prog, f, c09):
+    return PROPS + (['C09'] if f.path in c09 else [])
+
+
 def run(ctx):
     prog = ctx.prog
+    c09 = extra_props(prog)
     trees = sorted(prog.tree_adts)
     cores = {t: family_core(prog, t) for t in trees}
     fams = {t: t.split('::')[0] for t in trees}
@@ -192,10 +208,10 @@ def run(ctx):
             d = first_diff(forms[ref[0]][key], forms[odd_t][key]) if ref else diffs[0][1]
             ctx.add(RULE, f, 'sibling(%s)' % key[1], 'violation',
                     'copies disagree: %s in the %s copy differs from the %s cop%s; first difference at %s' % (key[1], fams[odd_t], '/'.join(others) or 'other', 'ies' if len(others) > 1 else 'y', d),
-                    PROPS, f.line, {'copies': [fams[t] for t in have], 'difference': d})
+                    props_of(prog, f, c09), f.line, {'copies': [fams[t] for t in have], 'difference': d})
         else:
             f = cores[ref_t][key]
-            ctx.add(RULE, f, 'sibling(%s)' % key[1], 'ok', 'identical canonical form in the %s copies' % '/'.join(fams[t] for t in have), PROPS, f.line, {'copies': [fams[t] for t in have]})
+            ctx.add(RULE, f, 'sibling(%s)' % key[1], 'ok', 'identical canonical form in the %s copies' % '/'.join(fams[t] for t in have), props_of(prog, f, c09), f.line, {'copies': [fams[t] for t in have]})
     # ---- 2. mirror pairs --------------------------------------------------------------------------
     n_pairs = 0
     for t in trees:
@@ -211,10 +227,10 @@ def run(ctx):
             a = commute_eq(mirror(canon_fn(f.hir, 'num')))
             b = commute_eq(canon_fn(g.hir, 'num'))
             if a == b:
-                ctx.add(RULE, f, 'mirror-pair(%s/%s)' % (name, m), 'ok', '%s is the left/right mirror image of %s' % (name, m), PROPS + (['C09'] if name.startswith('index_') else []), f.line)
+                ctx.add(RULE, f, 'mirror-pair(%s/%s)' % (name, m), 'ok', '%s is the left/right mirror image of %s' % (name, m), props_of(prog, f, c09), f.line)
             else:
                 ctx.add(RULE, f, 'mirror-pair(%s/%s)' % (name, m), 'violation', '%s and %s are no longer mirror images of each other; first difference at %s' % (name, m, first_diff(a, b)),
-                        PROPS + (['C09'] if name.startswith('index_') else []), f.line, {'difference': first_diff(a, b)})
+                        props_of(prog, f, c09), f.line, {'difference': first_diff(a, b)})
     # ---- 3. mirrored branches ------------------------------------------------------------------------
     n_chains = {}
     for t in trees:
